@@ -234,4 +234,40 @@ theorem foldl_stepFile_fresh (mt : Matcher) (ls : List SortLine) (p : Bytes) :
       rw [this, ih]
       simp [hm']
 
+/-! ## quoting -/
+
+theorem unquote_quote (t : Bytes) : unquote (QUOTE :: t) = .ok ([], t) := by
+  rw [unquote.eq_def]; simp
+
+theorem unquote_esc (d : UInt8) (t : Bytes) (h : d = BSL ∨ d = QUOTE) :
+    unquote (BSL :: d :: t) = (match unquote t with
+      | .ok (a, r) => .ok (d :: a, r)
+      | .error e => .error e) := by
+  rw [unquote.eq_def]
+  have hb : (BSL : UInt8) ≠ QUOTE := by decide
+  simp [hb, h]
+  cases unquote t with
+  | error e => rfl
+  | ok p => obtain ⟨a, r⟩ := p; rfl
+
+theorem unquote_plain (c : UInt8) (t : Bytes) (h1 : c ≠ QUOTE) (h2 : c ≠ BSL) :
+    unquote (c :: t) = (match unquote t with
+      | .ok (a, r) => .ok (c :: a, r)
+      | .error e => .error e) := by
+  rw [unquote.eq_def]
+  simp [h1, h2]
+  cases unquote t with
+  | error e => rfl
+  | ok p => obtain ⟨a, r⟩ := p; rfl
+
+theorem unquote_escape (n rest : Bytes) : unquote (escapeName n ++ QUOTE :: rest) = .ok (n, rest) := by
+  induction n with
+  | nil => simpa [escapeName] using unquote_quote rest
+  | cons c t ih =>
+    by_cases hc : c = QUOTE ∨ c = BSL
+    · have e : escapeName (c :: t) = BSL :: c :: escapeName t := by simp [escapeName, hc]
+      rw [e, List.cons_append, List.cons_append, unquote_esc c _ hc.symm, ih]
+    · have e : escapeName (c :: t) = c :: escapeName t := by simp [escapeName, hc]
+      rw [e, List.cons_append, unquote_plain c _ (fun h => hc (Or.inl h)) (fun h => hc (Or.inr h)), ih]
+
 end Sqfs.Sort
